@@ -642,6 +642,12 @@ def build_instances(truth: dict, rng: random.Random, per_message_full: int = 2) 
                 for variant, nz in (("nonzero", True), ("any", False)):
                     out.append(dict(base, key="%s|%s|field%d|%s" % (pkg, full, f["number"], variant), kind=field_kind(f),
                                     recipe={str(f["number"]): vg.field(f, 1, nz)}))
+                if f["type"]["kind"] == "enum" and f["label"] in ("singular", "optional", "repeated"):
+                    # open enums: a number the enum does not define (every configuration must carry it like the default one)
+                    vals = [v for _, v in vg.enums[(f["type"]["pkg"], tuple(f["type"]["path"]))]["values"]]
+                    und = {"e": max(vals) + 7}
+                    out.append(dict(base, key="%s|%s|field%d|undefined-enum" % (pkg, full, f["number"]), kind=field_kind(f),
+                                    recipe={str(f["number"]): ({"l": [und]} if f["label"] == "repeated" else und)}))
             for i in range(per_message_full):
                 out.append(dict(base, key="%s|%s|full%d" % (pkg, full, i), kind="multi-field",
                                 recipe=vg.message(pkg, tuple(t["path"]), 2)))
@@ -955,7 +961,7 @@ def check_C18(seed: int, n: int) -> dict:
             jobs.append(("random", gen.gen_schema(s, "full", tricky_comments=False, risky_names=(i % 5 == 4),
                                                  client_streaming=("none", False, True)[i % 3]), active, s ^ 0x5EED))
         for tag, sc in gen.edge_schemas():
-            if tag in ("feature-cover", "typing-name-message", "builtin-shadow", "wkt-in-map"):
+            if tag in ("feature-cover", "wkt-rpc", "typing-name-message", "builtin-shadow", "wkt-in-map"):
                 jobs.append(("edge:" + tag, sc, active, seed))
         results = parallel(jobs, _c18_job)
         for job, res in zip(jobs, results):
@@ -1269,7 +1275,7 @@ def check_C11(seed: int, n: int) -> dict:
                 continue
             nserv += k
             jobs.append(("random", schema, s ^ 0xC11))
-        jobs += [("edge:" + tag, sc, seed ^ 0xC11) for tag, sc in gen.edge_schemas() if tag == "feature-cover"]
+        jobs += [("edge:" + tag, sc, seed ^ 0xC11) for tag, sc in gen.edge_schemas() if tag in ("feature-cover", "wkt-rpc")]
         results = parallel(jobs, _c11_job)
         shapes = set()
         services = 0
